@@ -61,10 +61,10 @@ fn word_case(w: &str, shape: usize) -> Case {
             item.members.push(mk(w, None));
         }
     }
-    let files = vec![ProjFile::from_doc_styled("obs", Document::new("p", item), false)];
-    let exp = expect_observed(&files, 0);
-    let doc = files[0].doc.as_ref().unwrap();
-    let r = files[0].rendered.as_ref().unwrap();
+    let files = vec![companion(), ProjFile::from_doc_styled("obs", Document::new("p", item), false)];
+    let exp = expect_observed(&files, 1);
+    let doc = files[1].doc.as_ref().unwrap();
+    let r = files[1].rendered.as_ref().unwrap();
     let regions = vec![Loc::within(r.start(doc.item.lbrace_tok), r.end(doc.item.span.last))];
     let recs: Vec<Rec> = exp.recs.clone();
     Case {
@@ -83,10 +83,10 @@ fn make_case2(seq: &[usize]) -> Case {
         m.code = CODES2[s % CODES2.len()].map(|c| c.to_string());
         item.members.push(Member::Method(m));
     }
-    let files = vec![ProjFile::from_doc_styled("obs", Document::new("p", item), false)];
-    let exp = expect_observed(&files, 0);
-    let doc = files[0].doc.as_ref().unwrap();
-    let r = files[0].rendered.as_ref().unwrap();
+    let files = vec![companion(), ProjFile::from_doc_styled("obs", Document::new("p", item), false)];
+    let exp = expect_observed(&files, 1);
+    let doc = files[1].doc.as_ref().unwrap();
+    let r = files[1].rendered.as_ref().unwrap();
     let regions = vec![Loc::within(r.start(doc.item.lbrace_tok), r.end(doc.item.span.last))];
     let recs: Vec<Rec> = exp.recs.clone();
     Case {
@@ -125,6 +125,15 @@ fn member(sym: usize, idx: usize) -> Member {
     Member::Method(m)
 }
 
+/// A second interface in the same parser that is in every C09 situation itself (repeated names,
+/// repeated codes, mixing): what a pass remembers from it must not reach the observed interface.
+fn companion() -> ProjFile {
+    ProjFile::raw(
+        "companion",
+        "package q;\ninterface Companion {\n  void a() = 8;\n  void b();\n  void a();\n  void c() = 8;\n  void get() = 10;\n  void m0() = 1;\n}\n",
+    )
+}
+
 fn make_case(seq: &[usize]) -> Case {
     let mut item = Item::new(ItemKind::Interface, "I");
     for (i, s) in seq.iter().enumerate() {
@@ -132,10 +141,10 @@ fn make_case(seq: &[usize]) -> Case {
     }
     // every third sequence in the commented layout
     let commented = seq.iter().sum::<usize>() % 3 == 2;
-    let files = vec![ProjFile::from_doc_styled("obs", Document::new("p", item), commented)];
-    let exp = expect_observed(&files, 0);
-    let doc = files[0].doc.as_ref().unwrap();
-    let r = files[0].rendered.as_ref().unwrap();
+    let files = vec![companion(), ProjFile::from_doc_styled("obs", Document::new("p", item), commented)];
+    let exp = expect_observed(&files, 1);
+    let doc = files[1].doc.as_ref().unwrap();
+    let r = files[1].rendered.as_ref().unwrap();
     let regions = vec![Loc::within(r.start(doc.item.lbrace_tok), r.end(doc.item.span.last))];
     let recs: Vec<Rec> = exp.recs.clone();
     let expect = expect_json(&exp, &recs, &regions, "obs");
@@ -201,10 +210,10 @@ fn long_case(n: usize, shape: usize) -> Case {
             }
         }
     }
-    let files = vec![ProjFile::from_doc_styled("obs", Document::new("p", item), shape % 2 == 1)];
-    let exp = expect_observed(&files, 0);
-    let doc = files[0].doc.as_ref().unwrap();
-    let r = files[0].rendered.as_ref().unwrap();
+    let files = vec![companion(), ProjFile::from_doc_styled("obs", Document::new("p", item), shape % 2 == 1)];
+    let exp = expect_observed(&files, 1);
+    let doc = files[1].doc.as_ref().unwrap();
+    let r = files[1].rendered.as_ref().unwrap();
     let regions = vec![Loc::within(r.start(doc.item.lbrace_tok), r.end(doc.item.span.last))];
     let recs: Vec<Rec> = exp.recs.clone();
     Case {
@@ -251,7 +260,7 @@ pub fn run(tier: Tier, seed: u64) -> i32 {
             stats.nontrivial(fnv(&format!("{seq:?}")));
             let c = make_case(&seq);
             if i % 2999 == 0 {
-                stats.sample(json!({"label": c.label, "text": c.files[0].1}));
+                stats.sample(json!({"label": c.label, "text": c.files.last().unwrap().1}));
             }
             Some(c)
         },
@@ -273,7 +282,7 @@ pub fn run(tier: Tier, seed: u64) -> i32 {
                     return None;
                 }
                 let c = make_case2(&seq);
-                stats.nontrivial(fnv(&c.files[0].1));
+                stats.nontrivial(fnv(&c.files.last().unwrap().1));
                 Some(c)
             },
             check_case,
@@ -288,7 +297,7 @@ pub fn run(tier: Tier, seed: u64) -> i32 {
             1,
             |i| {
                 let c = word_case(words[i / 3], i % 3);
-                stats.nontrivial(fnv(&c.files[0].1));
+                stats.nontrivial(fnv(&c.files.last().unwrap().1));
                 Some(c)
             },
             check_case,
@@ -302,7 +311,7 @@ pub fn run(tier: Tier, seed: u64) -> i32 {
         1,
         |i| {
             let c = long_case(sizes[i / 12], i % 12);
-            stats.nontrivial(fnv(&c.files[0].1));
+            stats.nontrivial(fnv(&c.files.last().unwrap().1));
             Some(c)
         },
         check_case,
